@@ -219,3 +219,62 @@ tobinary = Contract(
 )
 CONTRACTS.append(tobinary)
 
+
+# ---------------------------------------------------------------- open-range resolution (structure)
+# The range pattern is kept abstract here (uninterpreted match predicate and groups), which
+# makes the obligations pure equational reasoning: WHICH entry, WHICH end of it and WHICH
+# offset is used for an open end.  What the pattern itself matches is covered by the
+# general contract above and by the bounded stand-in.
+RANGE_RX = {r'^(.*)\.\.(.*)$': 'range'}
+
+
+def BOUND(e, g):
+    """spec macro: low (g=1) / high (g=2) bound text of a neighbouring entry e"""
+    return f"(rx_group('range', {g}, {e}) if rx_matches('range', {e}) else {e})"
+
+
+to_int_abs = Contract(to_int.key, returns=Int, raises={'ModelError': Raises()},
+                      ensures=[('value', 'result == litval(val_str)')],
+                      notes='the value clause of _to_int proved above')
+
+neighbor_bound = Contract(
+    'pywbem/_valuemapping.py::ValueMapping._neighbor_bound', label='structure',
+    params={'self': VM, 'valuemap_str': Str, 'group': Int},
+    requires=['group == 1 or group == 2'],
+    returns=Int,
+    abstract_regex=RANGE_RX, opaque=['_element_str'], callees={'_to_int': to_int_abs},
+    ensures=[('low-bound', f"implies(group == 1, result == litval({BOUND('valuemap_str', 1)}))"),
+             ('high-bound', f"implies(group == 2, result == litval({BOUND('valuemap_str', 2)}))"),
+             ('bound-not-open', f"implies(group == 1, {BOUND('valuemap_str', 1)} != '') and "
+                                f"implies(group == 2, {BOUND('valuemap_str', 2)} != '')")],
+    raises={'ModelError': Raises()},
+)
+CONTRACTS.append(neighbor_bound)
+
+PREV, NEXT = 'valuemap_list[i - 1]', 'valuemap_list[i + 1]'
+values_tuple_structure = Contract(
+    'pywbem/_valuemapping.py::ValueMapping._values_tuple', label='structure',
+    params=values_tuple.params, requires=values_tuple.requires,
+    abstract_regex=RANGE_RX, opaque=['_element_str'],
+    callees={'_to_int': to_int_abs, '_neighbor_bound': neighbor_bound},
+    ensures=[
+        ('single', f"implies(not rx_matches('range', {E}), result[0] == litval({E}) and result[1] == litval({E}))"),
+        ('closed-lo', f"implies(rx_matches('range', {E}) and rx_group('range', 1, {E}) != '', "
+                      f"result[0] == litval(rx_group('range', 1, {E})))"),
+        ('closed-hi', f"implies(rx_matches('range', {E}) and rx_group('range', 2, {E}) != '', "
+                      f"result[1] == litval(rx_group('range', 2, {E})))"),
+        ('open-lo-at-start', f"implies(rx_matches('range', {E}) and rx_group('range', 1, {E}) == '' and i == 0, "
+                             "result[0] == cimtype.minvalue)"),
+        ('open-hi-at-end', f"implies(rx_matches('range', {E}) and rx_group('range', 2, {E}) == '' and i == len(valuemap_list) - 1, "
+                           "result[1] == cimtype.maxvalue)"),
+        ('open-lo-is-previous-high-plus-1',
+         f"implies(rx_matches('range', {E}) and rx_group('range', 1, {E}) == '' and i > 0, "
+         f"result[0] == litval({BOUND(PREV, 2)}) + 1)"),
+        ('open-hi-is-next-low-minus-1',
+         f"implies(rx_matches('range', {E}) and rx_group('range', 2, {E}) == '' and i < len(valuemap_list) - 1, "
+         f"result[1] == litval({BOUND(NEXT, 1)}) - 1)"),
+        ('values-string', 'result[2] == values_list[i]'),
+    ],
+    raises={'ModelError': Raises()},
+)
+CONTRACTS.append(values_tuple_structure)
